@@ -243,7 +243,7 @@ def finish(pid, tier, seed, merged, harness_errors, ledger, known_lines, rule, l
         os.makedirs(d, exist_ok=True)
         path = os.path.join(d, "%016x.json" % h64(f["sig"]))
         with open(path, "w") as fh:
-            json.dump({"property": pid, "sig": f["sig"], "what": f["what"], "case": f["case"], "seed": seed, "tier": tier}, fh, indent=1)
+            json.dump({"property": pid, "sig": f["sig"], "what": f["what"], "case": f["case"], "seed": seed, "tier": tier}, fh, indent=1, default=str)
         violations.append((f, path))
     wall = time.time() - t0
     stats = merged["stats"]
